@@ -17,6 +17,26 @@ CHECKS = {
    note=TB + "Modelled not verified: flat _data/slices re-indexing, NumPy kernels, lazy `trans` (the model is the logical view). Which all-zero blocks a contraction "
         "creates depends on tensordot_policy and is not compared (model is re-synchronised).",
    technique="Lean 4 proof on a block-tensor model + differential program correspondence + NumPy oracle", design="§5 C01"),
+ "C02": dict(
+   cat="proof",
+   text="Lean theorems: the well-formedness invariant WF (signatures, canonical charges, strictly ascending unique keys, selection rule under the regenerated group law, "
+        "positive consistent dimensions) is preserved by element-wise ops, conj/flip_signature, add/sub, transpose and tensordot for ALL well-formed operands, with the total "
+        "charge algebra (sum for contraction via the C19 grouping law, negation for conj, unchanged otherwise); eval_wf lifts it to every finite program; forbidden dense "
+        "elements are zero; the driver's executable wf flag is proved sound for WF. Tie: program correspondence on structure after every step + is_consistent() + "
+        "independent selection-rule/order/shape/size/fusion-meta oracle, forbidden-zero oracle and charge table on the real code (also for svd/qr/fuse/ncon results).",
+   note=TB + "trace/add_leg/remove_leg/fusion/factorisation results are covered by correspondence and oracles, not yet by WF theorems. Ops outside the model: autograd, to(device), torch backends.",
+   technique="Lean 4 proof (invariant preserved by every modelled op and program) + structural correspondence/oracles", design="§5 C02"),
+ "C03": dict(
+   cat="proof",
+   text="Lean model of hard fusion as an index map (effective charges, decomposition layout by offsets, row-major reshape). Theorems for all dimension profiles / sector "
+        "contents: reshape and sector layout are bijections (left and right inverses, injectivity, no gaps), the fused keys obey the selection rule for every partition of "
+        "the legs (from the C19 grouping law), charge/signature of the fused tensor. Tie: element-position correspondence (every element a distinct integer) of real "
+        "fuse_legs(mode='hard') vs the model + exact oracles on the real code: unfuse(fuse(x)) incl. pending transposes and depth<=3, hard/meta/mixed; elements and norm "
+        "preserved; tensordot/add/sub/vdot/trace over fused legs == over original legs for equal/overlapping/disjoint sector content; incompatible fusions rejected with "
+        "YastnError; block() vs dense block matrix.",
+   note=TB + "The tensor-level re-assembly of the per-leg bijections over arbitrary partitions (fuse_element_preserved) is not proved; meta fusion, mask/union logic for "
+        "mismatched histories and block() are tied by oracles only.",
+   technique="Lean 4 proof (index bijections, charge rule) + element-position correspondence + exact oracles", design="§5 C03"),
  "C05": dict(
    cat="proof",
    text="29 Lean theorems: swap sign formula, involution, bosonic identity, bosonic components ignored, pair symmetry; sign_canonical_order == inversion parity for "
@@ -34,6 +54,34 @@ CHECKS = {
         "bit for bit, tie-heavy ones JUDGED by the proved `Valid` predicate; svd/eigh_with_truncation error identity and limits checked on the real code.",
    note=TB + "LAPACK SVD/eigh are contracts validated numerically per run; truncate_multiplets heuristic is outside the property and not modelled.",
    technique="Lean 4 proof over exact truncation model + differential/judged correspondence", design="§5 C13"),
+ "C14": dict(
+   cat="proof",
+   text="The Lean model has a single specification per operation on the logical view (no policy, no lazy state): its results are by construction independent of "
+        "tensordot_policy, fusion mode and pending permutations, and its theorems (C01/C02) hold for it. Tie (the deciding part for the real code): every program is "
+        "executed in LOCKSTEP on the real code under the primary configuration, the two other policies, materialise-after-every-step, copy-after-every-step and the "
+        "other default fusion mode; after every step all runs are compared (charge, legs, dense values; exact on integer data) and the primary with the model; "
+        "contract_with_unroll is compared with ncon for sector/uniform/integer slicings of contracted and output indices, permuted outputs, lazy operands, several optimizers.",
+   note=TB + "Which all-zero blocks (hence possibly all-zero sectors) a contraction creates depends on the policy; results are compared on the union of legs (DESIGN §7). "
+        "svd/qr factors are gauge dependent: only reconstructions and singular values are compared.",
+   technique="Lean 4 model independent of the knobs + lockstep differential execution under all configurations", design="§5 C14"),
+ "C16": dict(
+   cat="proof",
+   text="15 Lean theorems about an LRU model of functools.lru_cache: for every pure f, capacity (0,1,n), coherent initial cache and EVERY finite history of "
+        "call/clear/resize events each call returns f x (transparency), warm = cold, size bound, key uniqueness, hit iff, counters, exact eviction policy. Tie: the 18 "
+        "cached yastn functions (every binding) are wrapped at run time; on every HIT the value is recomputed with __wrapped__ and deep-compared, digests detect "
+        "mutation after insertion; workload interleaves tensors of different symmetry/fermionic flags/fusion history with coinciding struct/slices under cache sizes "
+        "0/1/2/default with clears/resizes; every operation warm vs cold bit-identical; cache_info() vs the model after every event.",
+   note=TB + "Purity and key adequacy of the real cached functions are monitored (tested), not proved.",
+   technique="Lean 4 proof of LRU transparency + run-time cache monitor / warm-vs-cold oracle", design="§5 C16"),
+ "C17": dict(
+   cat="proof",
+   text="64 Lean theorems: combine(split d) = d for every nested dictionary, data order depends only on key structure, record codec fromDict(toDict) at all levels and both "
+        "generations, rejection of sym/fermionic/version mismatch, meta embedding linear/injective/norm preserving with zero fill and rejection. Tie: real tensors (diag, "
+        "hard/meta fused, lazily transposed, empty, complex), MPS/MPO with/without central block, PEPS on every lattice class, DoublePepsTensor, environments through "
+        "to_dict(level 0-2) -> {identity, split/combine, numpy save/load, HDF5} -> from_dict, compared field by field incl. trans/mfs/hfs and a follow-up contraction; "
+        "split/combine vs the model on dictionary skeletons.",
+   note=TB + "numpy.save / pickle / HDF5 formats are exercised, not modelled.",
+   technique="Lean 4 proof of codecs + round-trip oracles on real objects", design="§5 C17"),
  "C19": dict(
    cat="proof",
    text="Group laws (associativity, commutativity, identity, inverse by signature flip, canonical range, grouping law) are Lean theorems "
@@ -54,6 +102,24 @@ CHECKS = {
 NA_REASON = "check not built yet in this session (in progress; see DESIGN.md §9 build order)"
 ALL = [f"C{i:02d}" for i in range(1, 21)]
 
+def lean_targets():
+    """Lean modules and driver executables of all claimed checks (read from harness/props/*.py without importing them)"""
+    import re
+    mods, drvs = [], []
+    for pid in ALL:
+        if pid not in CHECKS:
+            continue
+        src = open(os.path.join(HERE, "harness", "props", pid.lower() + ".py")).read()
+        m = re.search(r"^LEAN_TARGETS\s*=\s*\[(.*?)\]", src, flags=re.M | re.S)
+        for t in re.findall(r'"([^"]+)"', m.group(1)) if m else []:
+            if t not in mods:
+                mods.append(t)
+        d = re.search(r'^DRIVER\s*=\s*"([^"]+)"', src, flags=re.M)
+        if d and d.group(1) not in drvs:
+            drvs.append(d.group(1))
+    return mods, drvs
+
+
 def main():
     checks = []
     for pid in ALL:
@@ -72,7 +138,7 @@ def main():
         })
     m = {
         "version": 1,
-        "setup_cmd": "cd lean && lake build YModel YProofs " + " ".join(f"drv_{p.lower()}" for p in ALL if p in CHECKS) + " && cd .. && ./check --selftest",
+        "setup_cmd": "cd lean && lake build " + " ".join(sum(lean_targets(), [])) + " && cd .. && ./check --selftest",
         "hooks": {"guard": "YASTN_VERIF", "enable": "none needed: the harness wraps module attributes at run time (no source hooks in /repo)",
                   "baseline_off_cmd": BASE, "source_commits": [], "add_only": True},
         "engines": [{"name": "lean4-model+correspondence", "path": "lean/ harness/ gen/ check",
